@@ -197,6 +197,9 @@ func (b *Billet) incrementRefAndStore(h util.Uint256, bs []byte) {
 		// An item may already be in store.
 		data, err = b.Store.Get(key)
 		if err == nil {
+			// The slice belongs to the store (it may be a part of the batch that is
+			// being flushed right now), the counter must not be changed in place.
+			data = bytes.Clone(data)
 			cnt = int32(binary.LittleEndian.Uint32(data[len(data)-4:]))
 		}
 		cnt++
